@@ -161,7 +161,7 @@ class Gen(object):
                     pts[:, j] = sp
                 else:
                     pts[j] = sp
-        if fam.gran != "mesh" and not isinstance(ps.pts, T.PLin) and rng.random() < self.cfg.get("nonfinite_pts", 0.015):
+        if fam.gran != "mesh" and not isinstance(ps.pts, T.PLin) and rng.random() < self.cfg.get("nonfinite_pts", 0.03):
             j = rng.randrange(pts.shape[axis])
             bad = rng.choice([float("nan"), float("inf")])
             if layout == "2N":
@@ -302,6 +302,11 @@ class Gen(object):
                 op = dict(s2.new_op)
                 op["op"] = "churn"
                 op["n"] = rng.randint(1, 4)
+                if s2.cfg:
+                    op["cfgs"] = [dict(c) for c in s2.cfg]
+                if rng.random() < 0.6:
+                    pts, thex, layout = tmp.request_points(s2, n=rng.choice([1, 3]))
+                    op["use"] = {"pts": enc(pts), "t": thex}
                 self.ops.append(op)
         elif r < cfg["p_recall"] + cfg["p_scribble"] + cfg["p_drop"] + cfg["p_churn"] + cfg["p_dump"] and self.sols:
             self.ops.append({"op": "dump", "c": client, "sol": rng.choice(self.sols[-6:]), "dev": "sim", "bufsize": rng.choice([1, 16, 64, 8192])})
@@ -384,6 +389,30 @@ def pick_families(rng, fams, n, prop):
     return chosen
 
 
+def append_canaries(g, rng):
+    """A fixed block of cheap operations on other solvers, appended to every C06 run: calls that legitimately pass
+    through inf/nan, emit a warning, or print -- so that a process-wide setting some earlier operation left changed
+    (numpy error state, warning filters, a redirected or closed stdout) turns into a value or an exception that
+    differs from the fresh interpreter's.  They are ordinary operations of the property's quantifier, judged by H1."""
+    np = world.np
+    plan = [("exactpack.solvers.noh.noh1.SphericalNoh", {}, np.array([0.0, 0.3]), 0.6),
+            ("exactpack.solvers.blake.blake.Blake", {"pressure_scale": 5.0e9}, np.array([0.1, 0.5]), 1.6e-4),
+            ("exactpack.solvers.cog.cog8.Cog8", {}, np.array([0.0, 0.5]), 0.0)]
+    for qual, kw, pts, t in plan:
+        if qual not in world.CENSUS:
+            continue
+        fam = T.family_of(qual)
+        oid = "S%d" % (len(g.objs) + 1)
+        op = {"op": "new", "c": 99, "obj": oid, "cls": qual, "kw": enc(kw), "fam": fam.name if fam else "", "pi": -1, "canary": True}
+        g.ops.append(op)
+        st = ObjState(oid, qual, fam, 0, op, 99)
+        g.objs.append(st)
+        g.nbuf += 1
+        g.nsol += 1
+        g.ops.append({"op": "call", "c": 99, "obj": oid, "buf": "B%d" % g.nbuf, "pts": enc(pts), "cont": "nd", "t": fhex(t),
+                      "sol": "R%d" % g.nsol, "layout": "N", "fam": fam.name if fam else "", "canary": True})
+
+
 def make_run(seed, tier, index, prop="C06"):
     """One seeded swarm run: returns the spec (ops + fault intents + run-level settings)."""
     world.load()
@@ -399,13 +428,15 @@ def make_run(seed, tier, index, prop="C06"):
         guard += 1
         c = rng.choice(clients)
         g.client_step(c, fam_of_client[c])
+    n_workload = len(g.ops)
+    append_canaries(g, rng)
     run = {}
     kinds = cfg["fault_kinds"]
     if "alloc" in kinds:
         run["alloc"] = fhex(rng.choice(ALLOC_PATTERNS[1:]))
     if "nofile" in kinds:
         run["nofile_extra"] = rng.randint(3, 8)
-    intents = place_intents(rng, g.ops, kinds, cfg["fault_rate"])
+    intents = place_intents(rng, g.ops[:n_workload], kinds, cfg["fault_rate"])
     spec = {"seed": seed, "tier": tier, "index": index, "prop": prop, "kind": "swarm",
             "config": {k: v for k, v in cfg.items() if k != "n_choices"},
             "families": [f.name for f in chosen], "run": run, "ops": g.ops, "intents": intents, "faults": []}
@@ -475,9 +506,13 @@ def make_cornerstone(seed, tier, k, prop="C06"):
     g.call_op(0, a2, pa, ta, la)
     if b is not None and b.alive:
         g.call_op(1, b, pb, tb, lb)
+    append_canaries(g, rng)
+    run = {}
+    if rng.random() < 0.5:
+        run["alloc"] = fhex(rng.choice(ALLOC_PATTERNS[1:]))     # dirty allocation (F7) in half of the cornerstone runs
     spec = {"seed": seed, "tier": tier, "index": k, "prop": prop, "kind": "cornerstone",
             "config": {"family": fname, "p": p, "q": q, "variant": variant},
-            "families": [fname], "run": {}, "ops": g.ops, "intents": intents, "faults": []}
+            "families": [fname], "run": run, "ops": g.ops, "intents": intents, "faults": []}
     return spec
 
 
@@ -568,6 +603,23 @@ def fixed_n_family(fam):
     return any(getattr(ps.pts, "fixed_n", False) for ps in fam.pool)
 
 
+def missing_variants(cls, kw0, m):
+    """Constructor keyword sets that all leave out the default-less parameter m: the bare pool entry, every other
+    parameter given explicitly (at its default), and each other parameter given alone."""
+    base = {k: v for k, v in kw0.items() if k != m}
+    out = [dict(base)]
+    defaults = {p: getattr(cls, p) for p in sorted(cls.parameters) if p != m and hasattr(cls, p)
+                and isinstance(getattr(cls, p), (int, float)) and not isinstance(getattr(cls, p), bool)}
+    full = dict(defaults)
+    full.update(base)
+    out.append(full)
+    for p, v in defaults.items():
+        one = dict(base)
+        one[p] = v
+        out.append(one)
+    return out
+
+
 def missing_params(cls):
     return [p for p in cls.parameters if not hasattr(cls, p)]
 
@@ -603,6 +655,7 @@ def conformance(g, client, qual, rng, tier):
     miss = missing_params(cls)
     if miss and fam.name != "blake":
         pi, kw = usable[0]
+        kw = rng.choice(missing_variants(cls, {k: v for k, v in kw.items() if k not in miss}, miss[0]))
         kw = {k: v for k, v in kw.items() if k not in miss}
         oid = "S%d" % (len(g.objs) + 1)
         op = {"op": "new", "c": client, "obj": oid, "cls": qual, "kw": enc(kw), "fam": fam.name, "pi": pi, "expect": "ValueError", "missing": miss}
@@ -744,14 +797,14 @@ def make_c05_sweep(seed, tier, k):
         for m in missing_params(cls):
             if fam.name == "blake":
                 break
-            kw = {k2: v for k2, v in kw0.items() if k2 != m}
-            oid = "S%d" % (len(g.objs) + 1)
-            op = {"op": "new", "c": 100, "obj": oid, "cls": qual, "kw": enc(kw), "fam": fam.name, "pi": pi,
-                  "expect": "ValueError", "missing": [m]}
-            g.ops.append(op)
-            dead = ObjState(oid, qual, fam, pi, op, 100)
-            dead.alive = False
-            g.objs.append(dead)
+            for kw in missing_variants(cls, kw0, m):
+                oid = "S%d" % (len(g.objs) + 1)
+                op = {"op": "new", "c": 100, "obj": oid, "cls": qual, "kw": enc(kw), "fam": fam.name, "pi": pi,
+                      "expect": "ValueError", "missing": [m]}
+                g.ops.append(op)
+                dead = ObjState(oid, qual, fam, pi, op, 100)
+                dead.alive = False
+                g.objs.append(dead)
         st = g.new_op(100, fam, qual=qual, pi=pi)
         if st is not None:
             pts, thex, layout = g.request_points(st)
